@@ -98,6 +98,26 @@ def c01_1(c: Ctx) -> None:
                 v = n.value
                 if isinstance(v, (ast.Subscript,)) or (isinstance(v, ast.Call) and call_name(v) in ('filter', 'set', 'dict')) or isinstance(v, (ast.ListComp, ast.GeneratorExp)):
                     c.fail(u, f'handler list rebound before the loop: {U(n)}', 'the looked-up handler list is sliced/filtered before the selection loop', node=n)
+    # the selection is recomputed from the live registry on every call: no memoisation (a cached list misses handlers registered later)
+    g = c.cfg(u)
+    self_ = u.params()[0]
+    state_writes = [w for w in c.cg.writes.get(u.key, []) if w.base is not None and U(w.base).split('.')[0] == self_ and not isinstance(w.base, ast.Name) is False or (w.base is not None and U(w.base) == self_)]
+    state_writes = [w for w in c.cg.writes.get(u.key, []) if w.base is not None and (U(w.base) == self_ or U(w.base).startswith(self_ + '.'))]
+    for w in state_writes:
+        c.fail(u, f'_get_applicable_handlers writes bus state: {U(w.node)[:70]}', 'the applicable-handler lookup is memoised on the bus: handlers registered (or removed) after the first event of a type are not seen for later events of that type', node=w.node)
+    from sa.cfg import search
+
+    rets = [n for n in g.live_nodes() if n.kind == 'return']
+    for node_, k in lookups:
+        st_ = q.stmt_of(node_)
+        ids = {x.id for x in g.nodes_of(st_)}
+        for rn in rets:
+            p = search([(g.entry, ())], is_target=lambda n, d: n is rn, is_barrier=lambda n, d: n.id in ids, edge_ok=lambda n, e, d: None if e.is_exc else d)
+            if p is not None:
+                c.fail(u, f'a return is reachable without reading self.handlers under {k}', 'on some path the handler lookup is skipped (cached / short-circuited): handlers registered later are never delivered to', node=rn.ast, witness=c.path(g.entry, p))
+                break
+        else:
+            c.ok(where(u, node_), f'every path to a return reads self.handlers under {k}')
     # writer of event_type default
     uv = c.unit(MOD, 'BaseEvent._set_event_type_from_class_name')
     okv = False
